@@ -21,6 +21,12 @@
 (*     steps) and no OTHER counter that could be read before changes its      *)
 (*     value or disappears.                                                   *)
 (*                                                                            *)
+(* Reading a whole file (counter.Read, the uploader's parse of every count      *)
+(* file in local/) must also return on every damage, and the uploader may only  *)
+(* leave a damaged file byte-identical or fold it into a report of its week.    *)
+(* A record's VALUE (zero or not) never matters for any of this: a zero-valued  *)
+(* record is a record like any other (dimension vals).                          *)
+(*                                                                            *)
 (* The abstract file has three records: C and E share a bucket (chain          *)
 (* head -> C -> E), V lives alone in another bucket (on the second page).      *)
 (* Written from the layout documentation and the property text, not from the   *)
@@ -35,10 +41,13 @@ HeadNClasses == {"zero", "valid", "hdr", "table", "unaligned", "gelimit", "gefil
 NlenClasses  == {"ok", "zero", "pastpage", "pastend", "pastfile"}   \* pastend: the name ends 8 bytes beyond the file
 NextCClasses == {"ok", "zero", "self", "other", "range", "ffff"}
 NextEClasses == {"ok", "other", "self", "cycle2", "range", "ffff"}
-Ops          == {"addE", "addN", "addM"}
+ValClasses   == {"nz", "zero"}                 \* the values of records C and E
+AddOps       == {"addE", "addN", "addM"}
+ParseOps     == {"read", "upload"}             \* counter.Read of E / upload.Run over the directory: both read the whole file
+Ops          == AddOps \cup ParseOps
 
 Undamaged == [hdr |-> "ok", trunc |-> "none", limit |-> "ok", headE |-> "ok", headN |-> "zero",
-              nlenC |-> "ok", nextC |-> "ok", nextE |-> "ok"]
+              nlenC |-> "ok", nextC |-> "ok", nextE |-> "ok", vals |-> "nz"]
 Dims == DOMAIN Undamaged
 Damage(f) == Cardinality({d \in Dims : f[d] # Undamaged[d]})
 
@@ -74,7 +83,7 @@ Walk(f, node, target, fuel, odd) ==
     ELSE Walk(f, NextOf(f, node), target, fuel - 1, odd \/ Odd(f, node))
 
 BucketOfOp(op) == IF op = "addN" THEN "bN" ELSE "bE"
-TargetOfOp(op) == IF op = "addE" THEN "E" ELSE "none"
+TargetOfOp(op) == IF op \in {"addE", "read"} THEN "E" ELSE "none"
 Lookup(f, op)  == Walk(f, HeadOf(f, BucketOfOp(op)), TargetOfOp(op), 4, FALSE)
 
 (* ---- expected class ---------------------------------------------------------*)
@@ -87,7 +96,8 @@ AllocClass(f) == CASE f.limit = "ok" /\ f.trunc = "none" -> "persist"
                    [] f.limit \in {"hdr", "table"} -> "memory"     \* the limit must lie above the hash table
                    [] OTHER -> "any"                                \* 0 with records present, below a record, unaligned, beyond the file
 ExpectMode(f, op) ==
-    IF ExpectOpen(f) = "parks" THEN "memory"
+    IF op \in ParseOps THEN "any"                \* nothing is added
+    ELSE IF ExpectOpen(f) = "parks" THEN "memory"
     ELSE IF TooShort(f) THEN "any"               \* the file is set up again; what it still holds is not specified
     ELSE LET r == Lookup(f, op) IN
          CASE r[1] = "invalid" -> "memory"
@@ -95,10 +105,10 @@ ExpectMode(f, op) ==
            [] r[2]             -> "any"
            [] r[1] = "found"   -> "persist"
            [] OTHER            -> AllocClass(f)
-(* a parked file is not written to at all *)
-ExpectUntouched(f) == ExpectOpen(f) = "parks"
+(* a parked file is not written to at all; reading a counter back writes nothing *)
+ExpectUntouched(f, op) == ExpectOpen(f) = "parks" \/ (op = "read" /\ ~TooShort(f))
 
-Expected(f, op) == [open |-> ExpectOpen(f), mode |-> ExpectMode(f, op), untouched |-> ExpectUntouched(f)]
+Expected(f, op) == [open |-> ExpectOpen(f), mode |-> ExpectMode(f, op), untouched |-> ExpectUntouched(f, op)]
 
 (* ---- the observed outcome of a real run and its verdict --------------------- *)
 (* o = [open, ret, mode, others, untouched, dbl]; mode: persist (the amount is   *)
@@ -117,7 +127,7 @@ Safety(o) ==
 (* the documented class: "ok" or the clause in which model and code differ *)
 ClassCheck(f, op, o) ==
     LET e == Expected(f, op) IN
-    IF o.ret # "ok" THEN "ok"
+    IF o.ret # "ok" \/ op = "upload" THEN "ok"     \* the uploader does not open the file for counting
     ELSE IF o.open # e.open THEN "open-class"
     ELSE IF e.untouched /\ ~o.untouched THEN "parked-file-written"
     ELSE IF ~ModeAccepts(e.mode, o.mode) THEN "mode-class"
@@ -125,7 +135,8 @@ ClassCheck(f, op, o) ==
 Verdict(f, op, o) == IF Safety(o) # "ok" THEN Safety(o) ELSE ClassCheck(f, op, o)
 
 (* ---- enumeration ------------------------------------------------------------- *)
-CONSTANT MaxDamage       \* number of damaged dimensions of family B
+CONSTANTS MaxDamage,      \* number of damaged dimensions of family B
+          MaxDamageParse  \* ... of the files that are also read as a whole (ParseOps)
 VARIABLES file, op, exp
 vars == <<file, op, exp>>
 
@@ -133,10 +144,11 @@ vars == <<file, op, exp>>
 FamilyA == {[Undamaged EXCEPT !.hdr = h, !.trunc = t, !.limit = l] : h \in HdrClasses, t \in TruncClasses, l \in LimitClasses}
 (* family B: intact header, no truncation; limit x heads x name length x links   *)
 FamilyB == {f \in [hdr : {"ok"}, trunc : {"none"}, limit : LimitClasses, headE : HeadEClasses, headN : HeadNClasses,
-                   nlenC : NlenClasses, nextC : NextCClasses, nextE : NextEClasses] : Damage(f) <= MaxDamage}
+                   nlenC : NlenClasses, nextC : NextCClasses, nextE : NextEClasses, vals : ValClasses] :
+                    Damage(f) <= (IF f.vals = "zero" /\ MaxDamage > 3 THEN 3 ELSE MaxDamage)}
 
 Init == /\ file \in FamilyA \cup FamilyB
-        /\ op \in Ops
+        /\ op \in AddOps \cup (IF Damage(file) <= MaxDamageParse THEN ParseOps ELSE {})
         /\ exp = Expected(file, op)
 Next == UNCHANGED vars
 Spec == Init /\ [][Next]_vars
@@ -144,7 +156,9 @@ Spec == Init /\ [][Next]_vars
 (* ---- sanity theorems about the operators (checked by TLC on every vector) ---- *)
 TypeOK == /\ exp.open \in {"opens", "parks"}
           /\ exp.mode \in {"persist", "memory", "any"}
-UndamagedPersists == Damage(file) = 0 => exp = [open |-> "opens", mode |-> "persist", untouched |-> FALSE]
+UndamagedPersists == (Damage(file) = 0 /\ op \in AddOps) => exp = [open |-> "opens", mode |-> "persist", untouched |-> FALSE]
+(* zero-valued records are records like any other *)
+ValuesIrrelevant  == exp = Expected([file EXCEPT !.vals = "nz"], op) /\ Lookup(file, op) = Lookup([file EXCEPT !.vals = "nz"], op)
 ParkedMeansMemory == exp.open = "parks" => exp.mode = "memory" /\ exp.untouched
 (* an amount is kept in memory only because of some damage, and a cycle is only  *)
 (* possible where a link was damaged                                             *)
@@ -158,5 +172,5 @@ OtherBucketIrrelevant ==
 FoundIgnoresLimit == (~TooShort(file) /\ file.hdr = "ok" /\ Lookup(file, op)[1] = "found" /\ ~Lookup(file, op)[2]) => exp.mode = "persist"
 (* the walk is total: it always ends in one of the four outcomes *)
 WalkTotal == Lookup(file, op)[1] \in {"found", "absent", "invalid", "cycle"}
-Sane == TypeOK /\ UndamagedPersists /\ ParkedMeansMemory /\ MemoryHasCause /\ CycleHasCause /\ OtherBucketIrrelevant /\ FoundIgnoresLimit /\ WalkTotal
+Sane == TypeOK /\ UndamagedPersists /\ ValuesIrrelevant /\ ParkedMeansMemory /\ MemoryHasCause /\ CycleHasCause /\ OtherBucketIrrelevant /\ FoundIgnoresLimit /\ WalkTotal
 =============================================================================
